@@ -233,6 +233,26 @@ def _half_chunk(args):
     return part
 
 
+def _halfms_chunk(args):
+    """Millisecond inputs that are not whole numbers: every half millisecond below 10 s, and the
+    floats around every half-second mark given in milliseconds.  "Equivalent seconds" is the
+    correctly rounded quotient ms / 1000.0 - a scaling that is off by one unit in the last
+    place lands on the other side of a rounding boundary exactly here."""
+    start, stop = args
+    part = core.Part()
+    for k in range(start, stop):
+        values = [1000.0 * k + 500.0]
+        values += [math.nextafter(values[0], 0), math.nextafter(values[0], math.inf)]
+        if k < 10000:
+            values.append(k + 0.5)
+        for millis in values:
+            for clause, msg in check_duration(millis, True) + check_equiv(millis):
+                part.violation(f"{clause}:ms:{millis!r}", msg, {"kind": "ms", "millis": millis})
+            part.count("duration_cases")
+            part.count("nontrivial")
+    return part
+
+
 def _edge_chunk(values):
     part = core.Part()
     for value in values:
@@ -256,6 +276,7 @@ def _int_chunk(values):
 
 def _dispatch(job):
     return {"esc": _escape_chunk, "dur": _duration_chunk, "half": _half_chunk,
+            "halfms": _halfms_chunk,
             "int": _int_chunk, "long": _long_chunk, "edge": _edge_chunk,
             "cp": _codepoint_chunk}[job[0]](job[1])
 
@@ -279,6 +300,7 @@ def run(ctx):
     span = half_top // 32 + 1
     for start in range(9, half_top, span):
         jobs.append(("half", (start, min(start + span, half_top))))
+        jobs.append(("halfms", (start - 9 if start == 9 else start, min(start + span, half_top))))
     # a hair below / at / above every form threshold (10 s, 60 s, 3600 s), seconds and ms
     edges = []
     for thr in (10.0, 60.0, 3600.0):
@@ -305,7 +327,8 @@ def run(ctx):
                 "2^16-1..2^17+1; every XML 1.0 character "
                 "U+0020..U+10FFFF (1,112,030 code points) alone, after a letter and before a "
                 "combining mark; every "
-                "integer millisecond 0..3,700,000 as ms and as seconds; three floats around every "
+                "integer millisecond 0..3,700,000 as ms and as seconds; every half millisecond below "
+                "10 s and three floats around every half-second mark as milliseconds; three floats around every "
                 f"k+0.5 s for k in 9..{half_top}; 1e-9..0.5 s either side of the 10 s, 60 s and "
                 "3600 s thresholds; integers to 1e7; non-trivial = texts mixing "
                 "ampersands with other specials, durations within 0.1 s of a half-second boundary",
